@@ -28,6 +28,8 @@ vf_i32 VFN(vf_sid)(vf_i32 si);
 vf_i32 VFN(vf_flags)(void);
 vf_i32 VFN(vf_introspect)(void);
 vf_i32 VFN(vf_visit)(void);
+void VFN(vf_destroy)(void);
+extern int vf_live;   /* C20: event objects constructed and not yet destroyed */
 void VFN(vf_enq)(vf_i32 kind, vf_i32 p);
 void VFN(vf_execq)(void);
 void VFN(vf_exec1)(void);
